@@ -10,7 +10,7 @@ int Futex::wake_one() noexcept {
   Node* node = nullptr;
   {
     ::std::lock_guard<::std::mutex> lock {_mutex};
-    for (node = _awaiter_head.next; node != nullptr; node = node->next) {
+    for (node = _awaiter_head.next; node != nullptr;) {
       // Unconditionally remove node from list, even when we can not take
       // ownership of it.
 
@@ -30,6 +30,8 @@ int Futex::wake_one() noexcept {
       if (box.take_released(node->id)) {
         break;
       }
+      // node->next was cleared above: continue with the successor saved before
+      node = next_node;
     }
   }
   // Resume when remove one node and get it's ownership successfully
